@@ -22,7 +22,7 @@ RULE = ("seeded query generator (unqualified / partially qualified columns, USIN
         "non-trivial = query with an unqualified column or a star; distinct = distinct (sql, dialect, depth)")
 ASSUMPTIONS = ["OptimizeError is an allowed outcome of qualify"]
 SPEC = {
-    "quick": {"shards": 16, "time_cap": 150, "queries": 9000, "idents": 1000},
+    "quick": {"shards": 16, "time_cap": 400, "queries": 9000, "idents": 1000},
     "thorough": {"shards": 16, "time_cap": 1500, "queries": 50000, "idents": 10000},
 }
 FEATS = dict(unqualified=0.75, stars="base-only", cte_cols=True, using=True, window=True, any_sub=False, star_dup_order=False,
